@@ -531,7 +531,40 @@ func (w *_node) AsString() (string, error) {
 		// user has registered a converter that takes the underlying type and returns a string
 		return customConverter.customToString(ptrVal(w.val).Interface())
 	}
-	return nonPtrVal(w.val).String(), nil
+	val := nonPtrVal(w.val)
+	if member, ok, err := intEnumMember(w.schemaType, val); ok || err != nil {
+		return member, err
+	}
+	return val.String(), nil
+}
+
+// intEnumMember handles an enum with int representation bound to a Go integer, which holds
+// the representation integer (see _assemblerRepr.AssignInt): at the type level such a value
+// is the name of the member the integer stands for.
+func intEnumMember(typ schema.Type, val reflect.Value) (string, bool, error) {
+	enum, ok := typ.(*schema.TypeEnum)
+	if !ok {
+		return "", false, nil
+	}
+	stg, ok := enum.RepresentationStrategy().(schema.EnumRepresentation_Int)
+	if !ok {
+		return "", false, nil
+	}
+	var i int64
+	switch kind := val.Kind(); {
+	case kindInt[kind]:
+		i = val.Int()
+	case kindUint[kind]:
+		i = int64(val.Uint())
+	default:
+		return "", false, nil
+	}
+	for _, member := range enum.Members() {
+		if reprInt, ok := stg[member]; ok && int64(reprInt) == i {
+			return member, true, nil
+		}
+	}
+	return "", false, fmt.Errorf("AsString: %d is not a valid member of enum %s", i, typ.Name())
 }
 
 func (w *_node) AsBytes() ([]byte, error) {
@@ -989,7 +1022,26 @@ func (w *_assembler) AssignString(s string) error {
 			// Any means the Go type must receive a datamodel.Node
 			w.createNonPtrVal().Set(reflect.ValueOf(basicnode.NewString(s)))
 		} else {
-			w.createNonPtrVal().SetString(s)
+			val := w.createNonPtrVal()
+			if kind := val.Kind(); kindInt[kind] || kindUint[kind] {
+				// An enum with int representation bound to a Go integer stores the representation integer.
+				enum, _ := w.schemaType.(*schema.TypeEnum)
+				var stg schema.EnumRepresentation_Int
+				if enum != nil {
+					stg, _ = enum.RepresentationStrategy().(schema.EnumRepresentation_Int)
+				}
+				reprInt, ok := stg[s]
+				if !ok {
+					return fmt.Errorf("AssignString: %q is not a valid member of enum %s", s, w.schemaType.Name())
+				}
+				if kindInt[kind] {
+					val.SetInt(int64(reprInt))
+				} else {
+					val.SetUint(uint64(reprInt))
+				}
+			} else {
+				val.SetString(s)
+			}
 		}
 	}
 	if w.finish != nil {
